@@ -38,11 +38,13 @@ carries its length), output is reduced to the sequence of `probe` executions (an
 `{{ id | probe }}`), `required` blocks, `block.super`, `break`/`continue`, the loop iteration limit (C06), the
 namespace contents.  WARN behaves like LAX for control flow.
 
-**Ghost state** (written only into the emitted events, never tested by the model — theorem
-`LiquidVerif.C09.ghost_erasure`): `frames`, the number of Python frames between `BoundTemplate.render` and
-the current `Node.render` call, accumulated from the per-construct costs below (measured with `sys._getframe`
-walks by the harness and compared on every case of the `frames` stream); `path`, the number of enclosing
-partial / macro / block / extends activations; `blocks`, the number of enclosing block-tag levels.
+**Ghost state** (only copied into the emitted events; no test of the model reads it): `frames`, the number of
+Python frames between the first `Node.render` of the render and the current `Node.render` call, accumulated from the
+per-construct costs below (measured with `sys._getframe` walks by the harness and compared on every case of the
+`depth` stream; the constants are those of the `sum(<genexpr>)` path of `BlockNode.render_to_output` — with
+`suppress_blank_control_flow_blocks` on, a block whose children are all blank takes a plain loop, one frame less);
+`path`, the number of enclosing partial / macro / block / extends activations; `blocks`, the number of enclosing
+block-tag levels.
 
 The functions are accepted by Lean without fuel: every recursive call either goes to a syntactically smaller
 node in the same context, or increases `scope` (bounded by the `extend` test) or `copyDepth` (bounded by the
